@@ -8,6 +8,7 @@ import (
 	"io"
 	"log"
 	"os"
+	"sync"
 	"time"
 
 	"github.com/brocaar/lorawan"
@@ -125,6 +126,31 @@ func send(p *lorawan.PHYPayload, v lorawan.MACVersion, k keys, prm params) (b []
 	return b, cq.Ok(cq.Bytes(b))
 }
 
+// decodeOnApplicationPort (Go-side): on a COPY of an accepted frame whose FPort is not 0 and that carries a payload,
+// DecodeFRMPayloadToMACCommands must refuse, or at least leave a frame that still encodes to the received octets
+// (C03-2: it used to turn the application octets into MACCommand values, after which the frame could not be
+// encoded, MIC-validated or encrypted any more).
+var failSink func(cases.GoFail)
+
+func decodeOnApplicationPort(q lorawan.PHYPayload, wire []byte) {
+	m, ok := q.MACPayload.(*lorawan.MACPayload)
+	if !ok || len(m.FRMPayload) == 0 || (m.FPort != nil && *m.FPort == 0) {
+		return
+	}
+	c := clone(q)
+	cm := c.MACPayload.(*lorawan.MACPayload)
+	cm.FHDR.FCnt &= 0xffff
+	err := c.DecodeFRMPayloadToMACCommands()
+	if err != nil {
+		return
+	}
+	b2, err2 := c.MarshalBinary()
+	if err2 != nil || hx(b2) != hx(wire) {
+		failSink(cases.GoFail{Key: "decode-frm-on-application-port:" + hx(wire), What: "DecodeFRMPayloadToMACCommands succeeded on an accepted frame whose FPort is not 0 and left a frame that no longer encodes to the received octets",
+			Replay: map[string]interface{}{"bytes": hx(wire), "frame_after": framefmt.Phy(c, framefmt.DecodedFOptsLen(wire)), "marshal_error": fmt.Sprint(err2)}})
+	}
+}
+
 // validate: UnmarshalBinary, FCnt := full, Validate*DataMIC by role.
 func validate(b []byte, v lorawan.MACVersion, up bool, k keys, prm params, full uint32) (q lorawan.PHYPayload, ok bool, s string) {
 	cases.Begin("UnmarshalBinary + Validate*DataMIC:"+hx(b), nil)
@@ -183,6 +209,7 @@ func receive(b []byte, v lorawan.MACVersion, k keys, prm params, full uint32) (s
 	if !ok {
 		return cq.Ok("RxBadMIC")
 	}
+	decodeOnApplicationPort(q, b)
 	if v != lorawan.LoRaWAN1_0 {
 		err = q.DecryptFOpts(k.e)
 	} else {
@@ -587,7 +614,7 @@ func main() {
 	r := cq.NewRNG(seed)
 	nr = cq.NewRNG(seed ^ 0x9e3779b97f4a7c15)
 	s := cases.New("C05", dir, "LW.Corr.C05",
-		"RFC 4493 examples first; corpus: FPort 0 with empty FRMPayload (C05-1), a frame whose MHDR RFU bit is flipped (C05-2). Pipeline: data frames with MAC commands in FOpts (0..15 bytes) and application payload (block-boundary lengths), commands on port 0, FOpts only, empty payloads, raw bytes; 4 MTypes, both MAC versions, FCnt above 2^16 in 70%, random keys (1.0: one network key; in a third of the sessions SNwkSIntKey = FNwkSIntKey, all network keys equal, all-zero keys or zero integrity keys), ConfFCnt/txDR/txCh random; the bytes the implementation sends are also given to the model's receiver (a specification-conformant peer must recover the content). Special MIC values: exchanges of application frames CONSTRUCTED (internal/micforge) so that the MIC of the serialised frame is 00000000, ffffffff, 00000001 (both directions, both versions). MHDR Major drawn from 0..3; in a quarter of the exchanges the FRMPayload / FOpts elements are of a foreign Payload type (framefmt.Opaque, mixed [Opaque, DataPayload], [MAC commands, Opaque] in FOpts, a clocksync.Command on port 202). Colliding keys (internal/collide): sessions that differ in exactly one key K vs K' where K' != K agrees with K under CRC-32 (IEEE + Castagnoli + Koopman at once), Adler-32 / byte sum, xor-folds to 8/4/2/1 bytes, FNV-1a 32, first 15 / first 8 / last 8 bytes - for each of the four session keys: exchange under K, validation of that frame under K', exchange under K', validation and exchange under K again, and the reverse order on a fresh frame, all back to back and in the concurrent pass. Fan-out: one FRMPayload slice and one FOpts slice kept by the caller and put into three frames (FCnt + 1, other DevAddr, other keys) exchanged in turn, printed from the original objects, slices unchanged afterwards; every exchange is also repeated from 8 goroutines at once. History: unrelated library calls (internal/noise) before every compared call; direction families run back to back (one frame content exchanged as downlink, uplink, confirmed downlink, confirmed uplink, uplink, downlink); every pipeline call is repeated twice later in the process (reverse and same order) and must give its first result. Tampering: for a subset of frames EVERY single-bit flip of the serialised frame (the receiver extends the 16 bits on the wire with its own upper 16 bits), and every single-parameter mismatch: each key with one bit flipped, FCnt +/- 2^16, ConfFCnt + 1 and + 2^16, txDR, txCh, validation with the other direction's function, the other MAC version. Every case distinct by construction.")
+		"RFC 4493 examples first; corpus: FPort 0 with empty FRMPayload (C05-1), a frame whose MHDR RFU bit is flipped (C05-2). Pipeline: data frames with MAC commands in FOpts (0..15 bytes) and application payload (block-boundary lengths), commands on port 0, FOpts only, empty payloads, raw bytes; 4 MTypes, both MAC versions, FCnt above 2^16 in 70%, random keys (1.0: one network key; in a third of the sessions SNwkSIntKey = FNwkSIntKey, all network keys equal, all-zero keys or zero integrity keys), ConfFCnt/txDR/txCh random; the bytes the implementation sends are also given to the model's receiver (a specification-conformant peer must recover the content). Special MIC values: exchanges of application frames CONSTRUCTED (internal/micforge) so that the MIC of the serialised frame is 00000000, ffffffff, 00000001 (both directions, both versions). MHDR Major drawn from 0..3; in a quarter of the exchanges the FRMPayload / FOpts elements are of a foreign Payload type (framefmt.Opaque, mixed [Opaque, DataPayload], [MAC commands, Opaque] in FOpts, a clocksync.Command on port 202). Colliding keys (internal/collide): sessions that differ in exactly one key K vs K' where K' != K agrees with K under CRC-32 (IEEE + Castagnoli + Koopman at once), Adler-32 / byte sum, xor-folds to 8/4/2/1 bytes, FNV-1a 32, first 15 / first 8 / last 8 bytes - for each of the four session keys: exchange under K, validation of that frame under K', exchange under K', validation and exchange under K again, and the reverse order on a fresh frame, all back to back and in the concurrent pass. After every accepted application frame (FPort not 0) DecodeFRMPayloadToMACCommands is tried on a copy: it must refuse or leave the frame encodable to the received octets (C03-2). Fan-out: one FRMPayload slice and one FOpts slice kept by the caller and put into three frames (FCnt + 1, other DevAddr, other keys) exchanged in turn, printed from the original objects, slices unchanged afterwards; every exchange is also repeated from 8 goroutines at once. History: unrelated library calls (internal/noise) before every compared call; direction families run back to back (one frame content exchanged as downlink, uplink, confirmed downlink, confirmed uplink, uplink, downlink); every pipeline call is repeated twice later in the process (reverse and same order) and must give its first result. Tampering: for a subset of frames EVERY single-bit flip of the serialised frame (the receiver extends the 16 bits on the wire with its own upper 16 bits), and every single-parameter mismatch: each key with one bit flipped, FCnt +/- 2^16, ConfFCnt + 1 and + 2^16, txDR, txCh, validation with the other direction's function, the other MAC version. Every case distinct by construction.")
 	s.ShardSize = 200
 	nPipe, nFlipFrames := 160, 24
 	if thorough {
@@ -635,6 +662,16 @@ func main() {
 		}
 	}
 	s.Watchdog(3 * time.Second)
+	var failMu sync.Mutex
+	reported := map[string]bool{}
+	failSink = func(f cases.GoFail) {
+		failMu.Lock()
+		defer failMu.Unlock()
+		if !reported[f.Key] && len(reported) < 20 {
+			reported[f.Key] = true
+			s.Fail(f)
+		}
+	}
 	{
 		rounds := 1
 		if thorough {
